@@ -129,7 +129,7 @@ def parse_out(line):
 FATAL = ("dead", "loss", "norecip", "panic", "oos", "timeout", "hang", "term")
 
 
-def canon(obs, mode, drop=("T",)):
+def canon(obs, mode, drop=("T", "N")):
     """Canonical form for comparison.  mode 'seq': the ordered log; 'multiset': sorted log per
     command; for a command that fails with a schedule-dependent cut (panic / no recipient) only the
     result is kept."""
